@@ -46,6 +46,7 @@ enum Wait {
     None,
     Latch { id: usize, help: bool },
     Event(&'static str),
+    Addr(usize),
     Idle,
 }
 
@@ -366,6 +367,7 @@ impl State {
                     self.latches[id] == 0 || (help && th.worker && !self.bag.is_empty())
                 }
                 Wait::Event(k) => self.events_set.contains(&k),
+                Wait::Addr(_) => false,
                 Wait::Idle => !self.bag.is_empty(),
             },
         }
@@ -1146,5 +1148,154 @@ pub fn flush() {
         s.write_outputs();
         s.flushed = false;
         s.result = r;
+    }
+}
+
+/// Blocks the caller until `wake_addr(addr)` is called by another simulated thread. Returns false
+/// (without blocking) when called from a thread the simulator doesn't schedule.
+pub fn wait_addr(addr: usize) -> bool {
+    let mut g = lock();
+    let Some(me) = enter(&mut g) else {
+        return false;
+    };
+    let s = g.as_mut().unwrap();
+    s.step += 1;
+    s.threads[me].st = St::Blocked;
+    s.threads[me].wait = Wait::Addr(addr);
+    match s.pick_next(me, false) {
+        Some(next) => {
+            let mut g = switch_to(g, me, next, "mutex_wait");
+            let s = g.as_mut().unwrap();
+            s.threads[me].st = St::Running;
+            s.threads[me].wait = Wait::None;
+        }
+        None => die(g, "deadlock", EXIT_DEADLOCK, "mutex wait with nothing runnable"),
+    }
+    true
+}
+
+pub fn wake_addr(addr: usize) {
+    let mut g = lock();
+    if enter(&mut g).is_none() {
+        return;
+    }
+    let s = g.as_mut().unwrap();
+    for t in &mut s.threads {
+        if t.st == St::Blocked && t.wait == Wait::Addr(addr) {
+            t.st = St::Runnable;
+            t.wait = Wait::None;
+        }
+    }
+}
+
+pub mod sync {
+    //! A `Mutex` with std's API whose `lock` is a scheduling point and whose contention is
+    //! resolved by the simulator (a thread descheduled inside a critical section keeps the lock;
+    //! others block in the simulator, never in the OS).
+    use std::ops::Deref;
+    use std::ops::DerefMut;
+    use std::sync::LockResult;
+    use std::sync::PoisonError;
+    use std::sync::TryLockError;
+
+    #[derive(Default)]
+    pub struct Mutex<T: ?Sized> {
+        inner: std::sync::Mutex<T>,
+    }
+
+    pub struct MutexGuard<'a, T: ?Sized> {
+        guard: Option<std::sync::MutexGuard<'a, T>>,
+        addr: usize,
+    }
+
+    impl<T> Mutex<T> {
+        pub const fn new(t: T) -> Self {
+            Mutex {
+                inner: std::sync::Mutex::new(t),
+            }
+        }
+
+        pub fn into_inner(self) -> LockResult<T> {
+            self.inner.into_inner()
+        }
+    }
+
+    impl<T: ?Sized> Mutex<T> {
+        pub fn lock(&self) -> LockResult<MutexGuard<'_, T>> {
+            let addr = self as *const Self as *const u8 as usize;
+            super::sched_point("mutex_lock");
+            loop {
+                match self.inner.try_lock() {
+                    Ok(g) => {
+                        return Ok(MutexGuard {
+                            guard: Some(g),
+                            addr,
+                        });
+                    }
+                    Err(TryLockError::Poisoned(p)) => {
+                        return Err(PoisonError::new(MutexGuard {
+                            guard: Some(p.into_inner()),
+                            addr,
+                        }));
+                    }
+                    Err(TryLockError::WouldBlock) => {
+                        super::probe("mutex_contended");
+                        if !super::wait_addr(addr) {
+                            // Not a simulated thread: fall back to a real blocking lock.
+                            return match self.inner.lock() {
+                                Ok(g) => Ok(MutexGuard {
+                                    guard: Some(g),
+                                    addr,
+                                }),
+                                Err(p) => Err(PoisonError::new(MutexGuard {
+                                    guard: Some(p.into_inner()),
+                                    addr,
+                                })),
+                            };
+                        }
+                    }
+                }
+            }
+        }
+
+        pub fn get_mut(&mut self) -> LockResult<&mut T> {
+            self.inner.get_mut()
+        }
+
+        pub fn is_poisoned(&self) -> bool {
+            self.inner.is_poisoned()
+        }
+    }
+
+    impl<T: ?Sized> Deref for MutexGuard<'_, T> {
+        type Target = T;
+        fn deref(&self) -> &T {
+            self.guard.as_ref().unwrap()
+        }
+    }
+
+    impl<T: ?Sized> DerefMut for MutexGuard<'_, T> {
+        fn deref_mut(&mut self) -> &mut T {
+            self.guard.as_mut().unwrap()
+        }
+    }
+
+    impl<T: ?Sized> Drop for MutexGuard<'_, T> {
+        fn drop(&mut self) {
+            self.guard.take();
+            super::wake_addr(self.addr);
+        }
+    }
+
+    impl<T: ?Sized + std::fmt::Debug> std::fmt::Debug for Mutex<T> {
+        fn fmt(&self, f: &mut std::fmt::Formatter<'_>) -> std::fmt::Result {
+            self.inner.fmt(f)
+        }
+    }
+
+    impl<T: ?Sized + std::fmt::Debug> std::fmt::Debug for MutexGuard<'_, T> {
+        fn fmt(&self, f: &mut std::fmt::Formatter<'_>) -> std::fmt::Result {
+            (**self).fmt(f)
+        }
     }
 }
